@@ -1459,7 +1459,7 @@ class Operation(_IRNode):
             return False
         if (
             len(self.operands) != len(other.operands)
-            or len(self.results) != len(other.results)
+            or self.result_types != other.result_types
             or len(self.regions) != len(other.regions)
             or len(self.successors) != len(other.successors)
             or self.attributes != other.attributes
